@@ -11,7 +11,7 @@ TRIAGE = {
     'src/image/image_raw.rs:228': 'guard in draw_sub_image that the public API cannot reach (SubImage::new intersects the area with the parent first)',
     'src/image/image_raw.rs:230': 'same unreachable guard',
     'src/iterator/contiguous.rs:85': 'saturating vs wrapping in the row skip of a cropped stream: the operands are ordered after the intersection, both give the same value',
-    'src/mock_display/mod.rs:295': 'set_pixel assertion y <= SIZE: the index computed next is out of range and panics as well (same observable behaviour, different message)',
+    'src/mock_display/mod.rs:295': 'set_pixel assertion weakened. Sweep 1 (y <= SIZE): the index computed next is out of range and panics as well. Sweep 2 (|| instead of &&): a real gap: set_pixel((64,5)) wrote cell (0,6) instead of panicking; out-of-range set_pixel actions were added to C20, which now reports the mutant (2 598 violating transitions)',
     'src/mock_display/mod.rs:579': 'selects the panic message format by a build-time environment variable; both branches panic',
     'src/mock_display/mod.rs:692': 'error of writeln! into a String formatter ignored: cannot fail',
     'src/mono_font/mod.rs:131': 'PartialEq of MonoFont: font equality is not part of any statement',
@@ -25,6 +25,20 @@ TRIAGE = {
     'src/primitives/triangle/mod.rs:115': 'a == 0 was returned earlier',
     'src/primitives/triangle/mod.rs:118': 'same as :102',
     'src/primitives/triangle/mod.rs:261': 'early verdict in is_collapsed for degenerate joins: only decides whether a thick triangle stroke is rendered as a filled body; the statements about triangles (C05 contains/points, C19 fills and 1 px outlines) do not depend on it, and the path-equivalence checks compare paths that share this function',
+    'core/src/geometry/point.rs:239': 'Point / Point component division: no statement covers Point arithmetic',
+    'core/src/geometry/size.rs:261': 'Size helper (swap of the two fields) not used by any anchored operation',
+    'core/src/geometry/size.rs:291': 'Size -= Size: no statement covers Size arithmetic',
+    'core/src/geometry/size.rs:369': 'Size helper, likewise',
+    'core/src/primitives/rectangle/mod.rs:555': 'saturating vs wrapping add: differs only when top_left + size passes i32::MAX, outside every domain',
+    'src/geometry/angle.rs:258': 'quadrant selection at exactly 270 degrees: both branches give the same sine',
+    'src/image/image_raw.rs:227': 'same unreachable guard as :228/:230',
+    'src/mono_font/mod.rs:196': 'DecorationDimensions::default_strikethrough offset: C14 asserts decorations at the offsets the font declares',
+    'src/mono_font/mono_text_style.rs:92': 'makes the library loop forever (every check ran into the 30 min limit of the sweep script, which had no per-case watchdog yet); with the watchdog of section 2.5 the checks report it under clause terminates',
+    'src/primitives/circle/mod.rs:110': 'saturating vs wrapping: differs only beyond u32::MAX',
+    'src/primitives/common/line_join.rs:173': 'moves the miter/bevel decision at exactly the miter limit: a rendering choice no statement fixes (the path-equivalence, bounding-box and translation checks still hold)',
+    'src/primitives/common/scanline.rs:49': 'horizontal lines: start.y == end.y, both branches give the same range',
+    'src/primitives/rectangle/styled.rs:268': '(2s+1).min(w+1)/2 == (2s).min(w+1)/2 for all integers',
+    'src/primitives/triangle/mod.rs:116': 'same as :102',
     'src/primitives/triangle/scanline_intersections.rs:95': 'one extra loop iteration over an exhausted edge list',
 }
 
